@@ -241,7 +241,7 @@ class Model:
         self._expand_classifiers()
 
     def _expand_classifiers(self) -> None:
-        from .expand import split_conditional_rebind_return
+        from .expand import split_conditional_rebind_return, counting_loops_to_sum, fold_temporaries_into_return
         from .expand import expand_function, split_conditional_returns, fold_attribute_aliases, generator_to_genexp, merge_isinstance_chains, inline_import_helpers, spread_kwargs_dicts, inline_method_aliases, loops_to_comprehensions, merge_boolean_returns
         for f in list(self.functions.values()):
             fn = f.node
@@ -254,6 +254,8 @@ class Model:
             na += merge_boolean_returns(fn)
             if f.module.name in ('pane.field', 'pane.util', 'pane.io', 'pane.annotations'):
                 na += split_conditional_rebind_return(fn)
+                if f.cls is not None:
+                    na += fold_temporaries_into_return(fn)
             na += spread_kwargs_dicts(fn)
             if not f.module.name.startswith('pane.converters') and not f.module.name.startswith('pane.errors'):
                 na += generator_to_genexp(fn)
@@ -272,6 +274,7 @@ class Model:
                         f.local_imports.update(import_bindings(sub_, f.module.name))
             if not f.module.name.startswith('pane.converters'):
                 # (the converter passes are analysed on their control flow as written: their loops carry try / except)
+                na += counting_loops_to_sum(fn)
                 na += loops_to_comprehensions(fn)
             if f.cls is not None:
                 for _i in range(4):
